@@ -455,4 +455,27 @@ theorem C15_parsing_terminates (valid : Str → Bool) (text : Str) :
     · exact NoDiv.ok _
 
 
+
+/-- **C15 (a distribution is only accepted under its own name)**: whatever text `parseDist` accepts starts — after stripping bars and
+white space — with the name of the family it is read as; a text in which a known name merely occurs somewhere (`trunc_gauss(…)`,
+`xpoisson(…)`) is rejected. -/
+theorem C15_distribution_name_is_a_prefix (text : Str) (d : PDist) (h : parseDist text = .ok d) :
+    startsWith (stripChars "| \t\n".toList text) (famText d.fam).toList = true := by
+  unfold parseDist at h
+  split at h
+  · cases h
+  · rename_i key fam hfind
+    extract_lets raw name rest at h
+    split at h
+    · cases h
+    · rename_i hsw
+      have hfam : d.fam = fam := by
+        repeat' (first | (cases h; done) | split at h)
+        all_goals (first | (cases h; rfl) | skip)
+      rw [hfam]
+      have : startsWith raw name = true := by simpa using hsw
+      exact this
+
+example : (match parseDist "|trunc_gauss(100, 10)|".toList with | .error .distPrefix => true | _ => false) = true := by decide +kernel
+
 end GBS.P
